@@ -339,7 +339,7 @@ def run_check(mod, tier, seed, replay=None):
           % (check_id, tier, seed, len(results), n_events, n_ok, n_skip, len(nontrivial_hashes),
              len(violations), sum(c for e, c, f in known_hits.values()), wall))
     for k, w in sorted(worst.items()):
-        print("  worst %-40s resid=%.3e tol=%.3e" % (k, w["resid"], w["tol"]))
+        print("  worst %-44s resid=%.3e tol=%.3e (ratio %.2e)" % (k, w["resid"], w["tol"], w["ratio"]))
     if counters:
         print("  counters " + json.dumps(counters))
     for ln in lines:
@@ -358,8 +358,10 @@ def _account(e, case, check_id, known, violations, known_hits, inconcl, worst):
         w = worst.get(e["sub"])
         r = e["resid"]
         r = r if isinstance(r, (int, float)) else float("nan")
-        if w is None or not (r <= w["resid"]):
-            worst[e["sub"]] = {"resid": r, "tol": e["tol"]}
+        t = e["tol"] if isinstance(e["tol"], (int, float)) else float("nan")
+        ratio = (r / t) if t > 0 else (0.0 if r == 0 else float("inf"))
+        if w is None or not (ratio <= w["ratio"]):
+            worst[e["sub"]] = {"resid": r, "tol": t, "ratio": ratio}
     if e["ok"] is False:
         k = classify(check_id, e["key"], known)
         if k is not None:
